@@ -45,6 +45,7 @@ impl Encode for u16 {
     ensures final(raw_value)@.len() == old(raw_value)@.len(),
         r is Ok <==> old(raw_value)@.len() >= 2,
         r is Ok ==> r->Ok_0 == 2 && be16(final(raw_value)@) == *self as int
+            && final(raw_value)@.subrange(0, 2) == be16_seq(*self as int)
             && forall|i: int| 2 <= i < old(raw_value)@.len() ==> final(raw_value)@[i] == old(raw_value)@[i],
 //@end
 }
@@ -54,6 +55,7 @@ impl Encode for u32 {
     ensures final(raw_value)@.len() == old(raw_value)@.len(),
         r is Ok <==> old(raw_value)@.len() >= 4,
         r is Ok ==> r->Ok_0 == 4 && be32(final(raw_value)@) == *self as int
+            && final(raw_value)@.subrange(0, 4) == be32_seq(*self as int)
             && forall|i: int| 4 <= i < old(raw_value)@.len() ==> final(raw_value)@[i] == old(raw_value)@[i],
 //@end
 }
@@ -63,6 +65,7 @@ impl Encode for u64 {
     ensures final(raw_value)@.len() == old(raw_value)@.len(),
         r is Ok <==> old(raw_value)@.len() >= 8,
         r is Ok ==> r->Ok_0 == 8 && be64(final(raw_value)@) == *self as int
+            && final(raw_value)@.subrange(0, 8) == be64_seq(*self as int)
             && forall|i: int| 8 <= i < old(raw_value)@.len() ==> final(raw_value)@[i] == old(raw_value)@[i],
 //@end
 }
